@@ -206,6 +206,8 @@ def make_visit(prog):
                 raise ValueError(pred)
             if not ok:
                 continue
+            if act == 'raise':
+                raise ValueError('the visit callback failed on %r' % (key,))
             if act == 'keep':
                 return True
             if act == 'drop':
@@ -408,7 +410,7 @@ def gen_prog(r):
                          ['key_is', r.choice(KEYS)], ['type', r.choice(['int', 'str', 'list', 'dict', 'tuple',
                                                                         'NoneType', 'set', 'frozenset', 'bool'])],
                          ['value_eq', r.choice(LEAVES)], ['empty']])
-        act = r.choice(['keep', 'drop', 'drop', 'same', 'rename', 'bump', 'both', 'wrap'])
+        act = r.choice(['keep', 'drop', 'drop', 'same', 'rename', 'bump', 'both', 'wrap'] * 3 + ['raise'])
         rules.append([pred, act])
     return rules
 
